@@ -1164,6 +1164,10 @@ type opaqueDef struct {
 	sorts []string
 	ret   string
 	gt    types.Type
+	// building: the defining axiom is being generated. A recursive application met meanwhile is
+	// written with a placeholder for the heap arguments (they are known only once the whole body
+	// has been evaluated) which is replaced by the axiom's own heap variables afterwards.
+	building bool
 }
 
 func (e *SpecEnv) applyOpaque(pf *PureFunc, pe *SpecEnv, args []SVal) SVal {
@@ -1174,8 +1178,8 @@ func (e *SpecEnv) applyOpaque(pf *PureFunc, pe *SpecEnv, args []SVal) SVal {
 	key := pf.Pkg + "::" + pf.Name
 	def := u.opaqueDefs[key]
 	if def == nil {
-		def = &opaqueDef{name: "spec." + sanitize(pf.Name)}
-		u.opaqueDefs[key] = def // (a recursive use would see the incomplete entry)
+		def = &opaqueDef{name: "spec." + sanitize(pf.Name), building: true}
+		u.opaqueDefs[key] = def
 		sym := &State{cells: map[interface{}]Value{}, heaps: map[string]Term{}, gen: &Gen{kind: "sym"}, u: u}
 		sym.alloc = Term{"alloc!sym", SInt}
 		vars := map[string]SVal{}
@@ -1198,21 +1202,30 @@ func (e *SpecEnv) applyOpaque(pf *PureFunc, pe *SpecEnv, args []SVal) SVal {
 		n.depth = e.depth + 1
 		n.noAlts = true
 		n.cur, n.old = sym, sym
+		def.gt, def.ret = pe.resolveType(pf.Ret)
 		body := n.eval(pf.Body)
 		if strings.Contains(body.T.S, "alloc!sym") {
 			e.fail("opaque func %s depends on the allocation counter", pf.Name)
 		}
-		def.gt, def.ret = pe.resolveType(pf.Ret)
 		if def.ret == SReal {
 			body.T = ToReal(body.T)
 		}
 		def.heaps = sym.symOrder
-		var hs []string
+		def.building = false
+		var hs, hvs []string
 		for _, h := range def.heaps {
 			hv := "hv!" + sanitize(h[0])
 			decls = append(decls, fmt.Sprintf("(%s %s)", hv, h[1]))
 			names = append(names, hv)
+			hvs = append(hvs, hv)
 			hs = append(hs, h[1])
+		}
+		if ph := " @@OPQH:" + def.name + "@@"; strings.Contains(body.T.S, ph) {
+			rep := ""
+			if len(hvs) > 0 {
+				rep = " " + strings.Join(hvs, " ")
+			}
+			body.T.S = strings.ReplaceAll(body.T.S, ph, rep)
 		}
 		u.W.declare(def.name, fmt.Sprintf("(declare-fun %s (%s) %s)", def.name, strings.Join(append(append([]string{}, def.sorts...), hs...), " "), def.ret))
 		appl := def.name
@@ -1233,6 +1246,11 @@ func (e *SpecEnv) applyOpaque(pf *PureFunc, pe *SpecEnv, args []SVal) SVal {
 			t = ToReal(t)
 		}
 		ts = append(ts, t)
+	}
+	if def.building {
+		// recursive application inside the definition (evaluated in the axiom's symbolic state)
+		ts = append(ts, Term{"@@OPQH:" + def.name + "@@", ""})
+		return SVal{app(def.ret, def.name, ts...), def.gt}
 	}
 	for _, h := range def.heaps {
 		ts = append(ts, e.cur.Heap(h[0], h[1]))
